@@ -148,6 +148,12 @@ MsgTagBase(s) ==
 \* once, when the part is built; PartBase reads it back).
 MText(s)  == [k |-> "text", s |-> s]
 MPrint(e) == [k |-> "print", e |-> e, b |-> MsgExprBase(e, "XXX")]
+\* a print with print directives: dirs = Seq([name, args: Seq(expr)]).  The
+\* directives are part of the placeholder's source (two prints of one
+\* expression through different directive lists are different placeholders);
+\* the base name comes from the expression alone.
+MPrintD(e, dirs) == [k |-> "print", e |-> e, dirs |-> dirs, b |-> MsgExprBase(e, "XXX")]
+MDir(name, args) == [name |-> name, args |-> args]
 MTag(s)   == [k |-> "tag", s |-> s, b |-> MsgTagBase(s)]
 MPlural(e, cases, dflt) ==
   [k |-> "plural", e |-> e, cases |-> cases, dflt |-> dflt, b |-> MsgExprBase(e, "NUM")]
@@ -290,6 +296,9 @@ MsgFeature(body) ==
   ELSE IF \E i \in 1..Len(ns) : MsgCloseHumps(MsgBaseIdent(ns[i].p)) THEN "identifier-adjacent-word-boundaries"
   ELSE IF \E i \in 1..Len(ns) : ns[i].p.k = "print" /\ ns[i].p.e.k = "global" /\ MsgLastDot(ns[i].p.e.name, Len(ns[i].p.e.name)) > 0
        THEN "global-dotted-name"
+  ELSE IF \E i, j \in 1..Len(ns) : i < j /\ ns[i].p.k = "print" /\ ns[j].p.k = "print" /\ ns[i].p # ns[j].p
+                                       /\ ns[i].p.e = ns[j].p.e
+       THEN "same-expr-different-directives"
   ELSE IF MsgMultiGroup(body) THEN "several-sources-one-base-name"
   ELSE IF MsgHasPlural(body) THEN "plural"
   ELSE IF MsgRepeats(body) THEN "repeated-placeholder"
@@ -341,6 +350,7 @@ MsgIdxAcc(i)   == [k |-> "idx", ns |-> FALSE, idx |-> i]
 MsgExprAcc(e)  == [k |-> "expr", ns |-> FALSE, e |-> e]
 MsgRef(n, acc) == [k |-> "var", name |-> n, acc |-> acc]
 MsgInt(n)      == [k |-> "int", v |-> n]
+MsgBool(v)     == [k |-> "bool", v |-> v]
 MsgBin(op, a, b) == [k |-> op, a |-> a, b |-> b]
 
 \* C10 pool: chosen so that base names collide with each other and with
@@ -446,8 +456,21 @@ MsgExtraBodies == <<
   << MPrint(MsgGlobal("app.glob")) >>,
   \* 24-25: the suffix collision, smallest forms
   << PoolC10[1], PoolC10[2], PoolC10[4] >>,
-  << PoolC10[4], PoolC10[1], PoolC10[2] >>
+  << PoolC10[4], PoolC10[1], PoolC10[2] >>,
+  \* 26-30: print directives belong to the placeholder's identity
+  << MPrintD(MsgVar("x"), <<MDir("truncate", <<MsgInt(3), MsgBool(FALSE)>>)>>), MText(" is short for "), MsgP("x") >>,
+  << MPrintD(MsgVar("x"), <<MDir("noAutoescape", <<>>)>>), MText(" "), MPrintD(MsgVar("x"), <<MDir("noAutoescape", <<>>)>>) >>,
+  << MPrintD(MsgVar("x"), <<MDir("truncate", <<MsgInt(3)>>)>>), MPrintD(MsgVar("x"), <<MDir("truncate", <<MsgInt(5)>>)>>), MsgP("x") >>,
+  << MPrintD(MsgVar("x"), <<MDir("escapeUri", <<>>), MDir("truncate", <<MsgInt(3)>>)>>),
+     MPrintD(MsgVar("x"), <<MDir("truncate", <<MsgInt(3)>>), MDir("escapeUri", <<>>)>>) >>,
+  << MPrintD(MsgA1, <<MDir("noAutoescape", <<>>)>>), MPrint(MsgA1), MPrintD(MsgRef("a", <<MsgKeyAcc("x")>>), <<MDir("id", <<>>)>>), PoolC10[1] >>
 >>
+
+\* Where a message can sit in a template.  Names, placeholder string and id
+\* are functions of the message alone: none of these may matter.
+MsgContextKinds == << "alone", "after-message", "if", "elseif", "else", "foreach", "ifempty",
+                      "switch-case", "switch-default", "let-block", "call-param", "log",
+                      "nested", "twice", "last-template" >>
 
 MsgFamExtra == {[kind |-> "extra", i |-> i] : i \in 1..Len(MsgExtraBodies)}
 
